@@ -456,12 +456,15 @@ type State struct {
 	results []Val
 	// write log (for loop havoc discovery)
 	log *WriteLog
+	// allocation watermark (Int term): references allocated so far are in (0, alloc)
+	alloc *Term
 }
 
 type WriteLog struct {
 	cells map[*Cell]bool    // cells written (at all)
 	paths map[*Cell][][]int // field paths written; a nil path = whole cell
 	heaps map[string]bool
+	allocs bool
 }
 
 func newWriteLog() *WriteLog {
@@ -501,7 +504,7 @@ func (l *WriteLog) note(loc Loc) {
 }
 
 func (st *State) fork() *State {
-	n := &State{vals: make(map[*Cell]Val, len(st.vals)), heaps: make(map[string]*Term, len(st.heaps)), ctl: st.ctl, label: st.label, results: st.results, log: st.log}
+	n := &State{vals: make(map[*Cell]Val, len(st.vals)), heaps: make(map[string]*Term, len(st.heaps)), ctl: st.ctl, label: st.label, results: st.results, log: st.log, alloc: st.alloc}
 	for k, v := range st.vals {
 		n.vals[k] = v
 	}
@@ -538,6 +541,20 @@ func (e *Engine) heap(st *State, key string, s *Sort) *Term {
 	st.heaps[key] = h
 	if !existed && strings.HasSuffix(key, "#ref") && strings.HasPrefix(key, "S:") {
 		e.sliceHeapAxiom(strings.TrimSuffix(key, "#ref"))
+	}
+	if !existed && strings.HasSuffix(key, "#ref") && strings.HasPrefix(key, "O:") {
+		e.objSliceAxiom(strings.TrimSuffix(key, "#ref"))
+	}
+	if !existed && strings.HasSuffix(key, "#ptr") {
+		// pointers stored in the initial heap refer to pre-existing objects
+		c := e.C
+		r := c.Bound("r", IntSort)
+		if strings.HasPrefix(key, "S:") {
+			j := c.Bound("j", e.IdxSort())
+			c.Axioms = append(c.Axioms, c.Forall([]*Term{r, j}, c.ILe(c.Select(c.Select(h, r), j), c.Inti(0))))
+		} else if strings.HasPrefix(key, "O:") {
+			c.Axioms = append(c.Axioms, c.Forall([]*Term{r}, c.ILe(c.Select(h, r), c.Inti(0))))
+		}
 	}
 	if !existed && e.nonNegKeys[key] {
 		c := e.C
@@ -582,6 +599,29 @@ func (e *Engine) nonNegLeafPaths(sh *Shape, prefix string, out map[string]bool) 
 		}
 		e.nonNegLeafPaths(f, p, out)
 	}
+}
+
+// objSliceAxiom: slice-typed fields of objects in the initial heap are well formed and pre-existing.
+func (e *Engine) objSliceAxiom(prefix string) {
+	c := e.C
+	hs := ArraySort(IntSort, IntSort)
+	hi := ArraySort(IntSort, e.IdxSort())
+	ref := c.Var("H0$"+prefix+"#ref", hs)
+	off := c.Var("H0$"+prefix+"#off", hi)
+	ln := c.Var("H0$"+prefix+"#len", hi)
+	cp := c.Var("H0$"+prefix+"#cap", hi)
+	r := c.Bound("r", IntSort)
+	at := func(h *Term) *Term { return c.Select(h, r) }
+	var body *Term
+	if e.IntIdx() {
+		z := c.Inti(0)
+		lim := c.Inti(1 << maxLenBits)
+		body = c.And(c.ILe(at(ref), z), c.ILe(z, at(off)), c.ILe(at(off), lim), c.ILe(z, at(ln)), c.ILe(at(ln), at(cp)), c.ILe(at(cp), lim))
+	} else {
+		lim := c.BVu(1<<maxLenBits, 64)
+		body = c.And(c.ILe(at(ref), c.Inti(0)), c.BVUle(at(off), lim), c.BVUle(at(ln), at(cp)), c.BVUle(at(cp), lim))
+	}
+	c.Axioms = append(c.Axioms, c.Forall([]*Term{r}, body))
 }
 
 // sliceHeapAxiom: slice headers stored in the initial heap are well formed and refer to
@@ -1006,6 +1046,20 @@ func (e *Engine) join(base *State, sts []*State) []*State {
 		}
 		m.heaps[k] = v
 	}
+	// allocation watermark: the maximum over the merged paths (any upper bound is sound)
+	var mark *Term
+	for i := len(sts) - 1; i >= 0; i-- {
+		a := sts[i].alloc
+		if a == nil {
+			a = e.C.Inti(1)
+		}
+		if mark == nil {
+			mark = a
+		} else if mark != a {
+			mark = e.C.Ite(e.C.ILt(mark, a), a, mark)
+		}
+	}
+	m.alloc = mark
 	m.assume(e.C.Or(guards...))
 	return []*State{m}
 }
